@@ -346,6 +346,11 @@ class Ctx:
                 cov["coqchk"] = {k: p["coqchk"][k] for k in ("ok", "cmd", "axioms", "cached", "wall_s")}
         cov.setdefault("trusted_base", [])
         cov["trusted_base"] = KERNEL_TB + cov["trusted_base"]
+        if cov.get("regenerated_models"):
+            cov["trusted_base"] = cov["trusted_base"] + [
+                "translator harness/translators/gopure (go/parser AST -> Gallina for the AccessMode constants and expression-bodied "
+                "predicates of server/store/types/types.go; Go's uint &, |, &^, ==, != read as N.land, N.lor, N.ldiff, N.eqb; fails closed: "
+                "a function outside its grammar is emitted as *_untranslated and coq/Gen/ObAcsPred.v stops compiling)"]
         cov["known_findings_hit"] = sorted(hit.keys())
         ev = {
             "property_id": self.pid, "tier": self.tier, "seed": self.seed, "level": level,
